@@ -318,8 +318,8 @@ def apply(s, step, ctx):
             raise Reject()
         if k == 'mirrored' and type(m).__name__.endswith('2'):
             k = 'translated'
-        if k in ('restrict', 'removed_unused') and (type(m).__name__.endswith('2') or m.nelements < 2):
-            raise Reject()      # node-dropping on second-order classes is the known finding C18-restrict-second-order
+        if k in ('restrict', 'removed_unused') and m.nelements < 2:
+            raise Reject()
         o = dict(kind=k, picks=step['picks'])
         st0 = np.random.get_state()[1][:4].copy()
         new = attempt(lambda: mesh_op(m, o))
